@@ -18,6 +18,7 @@ import (
 	"pgregory.net/rapid"
 
 	"verif/internal/corpus"
+	"verif/internal/synthfont"
 	"verif/internal/textgen"
 )
 
@@ -647,6 +648,50 @@ func Draw(t *rapid.T, face int, o Opts) Case {
 	}
 	if c.Text == nil {
 		c.Text = []rune{}
+	}
+	Params(s, &c, info, o)
+	return c
+}
+
+// ---- generated fonts ----
+
+// DrawSynth generates a case on a generated font (internal/synthfont): the text is made mostly of
+// the letters the generated lookups cover, repeated (short, medium and long runs), the parameters
+// come from the same decoder as every other case, with the font's feature among the user features
+// (on / off / ranged).
+func DrawSynth(t *rapid.T, o Opts) Case {
+	s := RapidSource{T: t}
+	sp := synthfont.DrawSpec(s)
+	c := Case{Synth: &sp, Font: "synth:" + sp.Kind}
+	covered, other := sp.Letters()
+	var n int
+	switch k := s.Intn("synthlen", 10); {
+	case k <= 3:
+		n = 1 + s.Intn("synthshort", 8)
+	case k <= 7:
+		n = 9 + s.Intn("synthmedium", 56)
+	default:
+		n = 65 + s.Intn("synthlong", 236)
+	}
+	main := covered[s.Intn("synthmain", len(covered))]
+	text := make([]rune, 0, n)
+	for len(text) < n {
+		switch k := s.Intn("synthpick", 20); {
+		case k <= 12:
+			text = append(text, main)
+		case k <= 16:
+			text = append(text, covered[s.Intn("synthcovered", len(covered))])
+		case k <= 18:
+			text = append(text, other[s.Intn("synthother", len(other))])
+		default:
+			r := textgen.Hostile[s.Intn("synthhostile", len(textgen.Hostile))]
+			text = append(text, r)
+		}
+	}
+	c.Text = cleanRunes(text, o.ValidOnly)
+	info := &FaceInfo{Features: sp.FeatureTags()}
+	if sp.Scripts >= 1 {
+		info.Alphabets = []string{"latin"}
 	}
 	Params(s, &c, info, o)
 	return c
